@@ -105,6 +105,8 @@ impl LKHSearch {
             new_solution.solution.routes.iter().flat_map(|route_ctx| route_ctx.route().tour.jobs().cloned()).collect();
         new_solution.solution.required.retain(|job| !assigned.contains(job));
         new_solution.solution.ignored.retain(|job| !assigned.contains(job));
+        // NOTE: the repair starts from the routes defined by locks, so it can serve a job which was unassigned originally
+        new_solution.solution.unassigned.retain(|job, _| !assigned.contains(job));
 
         // NOTE: jobs which the repair left without a tour (e.g. pending reloads) and which are not served by
         // a restored route have to stay in the solution
